@@ -114,6 +114,7 @@ const GenXML = `<?xml version="1.0" encoding="UTF-8"?>
     <avp name="GA-U32" code="9100" must="M"><data type="Unsigned32"/></avp>
     <avp name="GA-Octets" code="9001" must="M"><data type="UTF8String"/></avp>
     <avp name="GA-Group" code="9101" must="M"><data type="Grouped"><rule avp="GA-U32" required="false"/></data></avp>
+    <avp name="G-Ident" code="9102" must="M"><data type="OctetString"/></avp>
   </application>
 </diameter>`
 
